@@ -2,7 +2,7 @@
 using namespace smooth;
 MC_SUBCHECK(bundle)
 {
-  const int d = mc::thorough() ? 7 : 4;
+  const int d = mc::thorough() ? 7 : 5;
   {
     using G = Bundle<SO3d, Eigen::Vector3d, SE2d>;
     c16::Harness<G> h("Bundle<SO3,T3,SE2>d");
